@@ -44,7 +44,7 @@ CHECK = {'pkgs': ['core/validatorapi', 'core/parsigex'],
           're-verified; alterations that leave the signed content and identification untouched may be accepted. '
           'SEQUENCES - alphabet per endpoint / duty type: both valid submissions and the targeted invalid ones of the single-call list (quick: '
           'the core families other share, other share valid for itself, other validator same share, filed under the other validator, one other '
-          'domain, previous fork, other message, zero signature, outsider / first slot beyond the window; one version per endpoint or duty type '
+          'domain, previous fork, other message, zero signature; VC also genesis fork, outsider, proposal differing from the agreed one; peer also first slot beyond the window; one version per endpoint or duty type '
           'plus pre-electra attestations, unversioned aggregates, full and blinded proposals: 133 operations over 13 VC units = 17689 ordered '
           'pairs, 151 operations over 14 peer units = 22801 ordered pairs; thorough: VC every targeted submission of those units plus '
           '{valid, other share, previous fork, zero signature} of every other version: 470 operations over 38 units = 220900 pairs; peer one '
